@@ -215,4 +215,24 @@ PROPS = {
         "trusted_base": TB_REP + ["Utc::now() read by the harness immediately before expire_tasks stands for the instant the library reads"],
         "assumptions": ["boundary within 2 s of now-180 days excluded"],
     },
+    "C16": {
+        "module": "TcVerif.Props.C16",
+        "theorems": ["Tc.C16_abandon_invisible", "Tc.C16_commit_visible", "Tc.C16_readonly_refuses", "Tc.C16_readonly_reads",
+                     "Tc.C16_rows_add_index", "Tc.C16_rows_add_vec"],
+        "leanchecker_modules": [],
+        "runs": [
+            {"family": "store", "flags": [], "quick": {"cases": 500, "max_len": 60}, "thorough": {"cases": 25000, "max_len": 120}},
+        ],
+        "judge_preds": ["equiv"],
+        "nontrivial": lambda imp, ops: sum(1 for l in ops if l == "commit") >= 1 and len(ops) >= 20,
+        "rule": "random sequences of StorageTxn calls (all 21 methods; strings incl. empty, non-BMP, quotes, numeric-looking) that respect the contract "
+                "(set_working_set_item within range, mostly remove_operation of the last unsynced operation), with BEGIN / DROP / commit, close+reopen, "
+                "downgrades of the SQLite file to the 0.8 / 0.9 / (0,1) layouts (verified to have taken effect) followed by reopen, generated on "
+                "InMemoryStorage and replayed on SqliteStorage (one group = two cases that must print identical results), plus SQLite-only cases that "
+                "reopen read-only; all three are also diffed against the Lean StoreSpec; non-trivial = at least 20 calls with a commit; distinct by SHA-1",
+        "trusted_base": TB_COMMON + ["SQLite (bundled) executes each statement as documented, keeps committed data across close/reopen",
+                                     "the rusqlite-based downgrade of a database file reproduces the layout older TaskChampion versions wrote (built from the statements in schema.rs)"],
+        "assumptions": ["calls respect the storage contract (index in range; one commit per transaction: a transaction is over after commit, even a refused one)",
+                        "partial: the Lean refinement is proved for transaction visibility, read-only mode and add_to_working_set on rows; the remaining SQLite statements are covered by the three-way run only"],
+    },
 }
